@@ -365,6 +365,18 @@ def check_c06(src, run, res, assignors):
                 covered.add((tp.topic, tp.partition))
         src.check(covered == set(run.cluster.logs), "assignments do not cover every partition of the subscribed topics after the quiet period",
                   covered=sorted(covered), plan=_plan(run))
+        if not run.plan["faults"].log:
+            # fault-free run: every generation is accounted for by an environment event (a member starting,
+            # the planned stop / crash / partition-count change); a rebalance beyond that was caused by a
+            # member itself although nothing changed
+            gens = [e for e in run.cluster.group_events if e[2] == "generation"]
+            started = sum(1 for m in run.members.values() if m.consumer is not None)
+            bound = started + (1 if run.plan.get("event", "none") != "none" else 0)
+            if src.twin:
+                bound = 0
+            src.check(len(gens) <= bound,
+                      f"{len(gens)} generations although only {bound} environment events (joins, leave/crash, topic change) occurred and no fault was injected: "
+                      "a member caused a rebalance by itself", generations=[(round(e[0], 3), e[3], e[4]) for e in gens][:8], plan=_plan(run))
         late = [a for a in run.cluster.arrivals if a["req"]["api"] == "JoinGroup" and run.quiet_to - 1.5 < a["time"] < run.quiet_to]
         src.check(not late, "a member re-joined during the quiet period although nothing changed", n=len(late), plan=_plan(run))
         ids = member_ids(run)
